@@ -168,3 +168,21 @@ Example macro_play_example :
 Proof.
   cbv zeta. split; [repeat constructor|]. split; [vm_compute; lia|]. split; vm_compute; reflexivity.
 Qed.
+
+(* "regardless of other keys typed meanwhile": the release of a physical key - whatever it was bound to, also a key with the same
+   key code as one the macro holds - removes no macro-held key: those states carry no coordinate *)
+Lemma release_states_keeps_fake c skip : forall sts cu,
+  filter_map (fun s => match s with FakeKey k => Some k | _ => None end) (fst (release_states c skip sts cu)) =
+  filter_map (fun s => match s with FakeKey k => Some k | _ => None end) sts.
+Proof.
+  induction sts as [|s t IH]; intros cu; [reflexivity|]. cbn [release_states].
+  destruct (skip && st_clear_on_next_release s) eqn:Es.
+  - rewrite IH. destruct s; cbn [filter_map]; try reflexivity.
+    (* a macro-held key is never flagged clear-on-next-release *)
+    cbn in Es. rewrite andb_false_r in Es. discriminate.
+  - destruct s as [k c' f|ly c'|v c'|k|evs c'|cu1|cu2|]; cbn [filter_map].
+    all: try (destruct (coord_eqb c' c); [apply IH|]).
+    all: try (destruct (release_states c skip t _) as [r cu'] eqn:Er; cbn [fst filter_map];
+              specialize (IH cu); try rewrite Er in IH; cbn [fst] in IH; try rewrite IH; try reflexivity).
+    all: try (specialize (IH (cev_update cu (CRelease v))); rewrite IH; reflexivity).
+Qed.
